@@ -51,6 +51,34 @@ theorem reindent_length (ind s : Str) :
       simp [reindent, hc, ih, List.count_cons, this]
       omega
 
+-- **reindentDict_id**: a lib without a newline in any string or key, at any depth, is left alone by the
+-- re-indentation, whatever the options (the guard of `glif_roundtrip_partial`, as a predicate)
+open Spec02 in
+mutual
+theorem reindentPV_id (ind : Str) : ∀ v : PV, pvHasNewline v = false → reindentPV ind v = v
+  | .str s, h => by
+    have : '\n' ∉ s := by simpa [pvHasNewline] using h
+    simp [reindentPV, reindent_id_of_no_newline ind s this]
+  | .atom _, _ => by simp [reindentPV]
+  | .arr xs, h => by
+    have h' : listHasNewline xs = false := by simpa [pvHasNewline] using h
+    simp [reindentPV, reindentList_id ind xs h']
+  | .dict kvs, h => by
+    have h' : dictHasNewline kvs = false := by simpa [pvHasNewline] using h
+    simp [reindentPV, reindentDict_id ind kvs h']
+theorem reindentList_id (ind : Str) : ∀ xs : List PV, listHasNewline xs = false → reindentList ind xs = xs
+  | [], _ => by simp [reindentList]
+  | x :: r, h => by
+    have h' : pvHasNewline x = false ∧ listHasNewline r = false := by simpa [listHasNewline] using h
+    simp [reindentList, reindentPV_id ind x h'.1, reindentList_id ind r h'.2]
+theorem reindentDict_id (ind : Str) : ∀ kvs : List (Str × PV), dictHasNewline kvs = false → reindentDict ind kvs = kvs
+  | [], _ => by simp [reindentDict]
+  | (k, v) :: r, h => by
+    have h' : ('\n' ∉ k ∧ pvHasNewline v = false) ∧ dictHasNewline r = false := by
+      simpa [dictHasNewline] using h
+    simp [reindentDict, reindent_id_of_no_newline ind k h'.1.1, reindentPV_id ind v h'.1.2, reindentDict_id ind r h'.2]
+end
+
 /-- **glif_roundtrip_counterexample (lib text)**: "line1\nline2" does not come back, and what comes back depends
     on the options -/
 theorem glif_roundtrip_counterexample_lib_newline :
@@ -161,6 +189,54 @@ theorem glif_roundtrip_partial_no_object_libs (hc : Codec f rd nc ok) {g : Glyph
 
 end
 
+/-! ### the round trip, object libs included -/
+
+section
+variable {f : Fmt} {rd : Str → Option Nat} {nc : Color → Color} {ok : Nat → Prop}
+
+/-- the glyph that comes back, libs included: `g` with colours as their three-decimal strings read, scales within
+    2^-52 of 1 as 1 and `-0` offsets as `0` -/
+def normGL (nc : Color → Color) (g : Glyph) : Glyph :=
+  { g with
+    guidelines := g.guidelines.map (nGuideline nc)
+    anchors := g.anchors.map (nAnchor nc)
+    components := g.components.map nComponent
+    contours := g.contours.map nContour
+    image := g.image.map (pImage nc) }
+
+/-- **glif_roundtrip_partial**: for every valid glyph — object libs included, each on an object with an identifier —
+    under the guards the recorded findings force (no newline in any string or key of the lib that is written, a note
+    that is its own non-empty trim, an advance that is normal or `+0`, the reserved key unused) the parser accepts what
+    the writer produces, for ANY options, and returns `normGL nc g`, which does not mention the options. -/
+theorem glif_roundtrip_partial (hc : Codec f rd nc ok) {g : Glyph} (hv : ValidGlyph ok g) (hl : LibsIdentified g)
+    (hkey : dictGet objectLibsKey g.lib = none)
+    (hnl : Spec02.dictHasNewline (writtenLib g) = false)
+    (hnote : ∀ n, g.note = some n → trimText n = n ∧ n ≠ [])
+    (hadv : (isNormal g.width = true ∨ g.width = 0) ∧ (isNormal g.height = true ∨ g.height = 0)) :
+    parseGlif rd (encodeGlif f g) = .ok (normGL nc g) := by
+  rw [parse_encode hc hv]
+  have hlib : (preG f nc g).lib = writtenLib g := by
+    simp only [preG]
+    exact reindentDict_id f.indent _ hnl
+  rw [encode_then_parse_restores_object_libs (nc := nc) hv.idents hl hkey (preG f nc g) rfl rfl rfl rfl hlib]
+  have hn : pNote g.note = g.note := by
+    cases hgn : g.note with
+    | none => rfl
+    | some n =>
+      obtain ⟨h1, h2⟩ := hnote n hgn
+      simp [pNote, h1, h2]
+  have hwd : (if isNormal g.width || isNormal g.height then (if nonZero g.width then g.width else 0) else 0) = g.width := by
+    rcases hadv.1 with h | h
+    · simp [h, isNormal_nonZero h]
+    · simp [h]
+  have hht : (if isNormal g.width || isNormal g.height then (if nonZero g.height then g.height else 0) else 0) = g.height := by
+    rcases hadv.2 with h | h
+    · simp [h, isNormal_nonZero h]
+    · simp [h]
+  simp only [preG, normGL, hn, hwd, hht]
+
+end
+
 /-! ### non-vacuity of the codec hypotheses and of `ValidGlyph` -/
 
 def ok0 : Nat → Prop := fun b => b = 0
@@ -202,5 +278,23 @@ example : parseGlif R0 (encodeGlif F0 g0) = .ok (normG nc0 g0) :=
      by intro c hc; simp [g0] at hc; subst hc; exact ⟨rfl, by intro p hp; simp at hp; subst hp; rfl⟩,
      by intro a ha; simp [g0] at ha; subst ha; rfl⟩
     (by decide) (by simp [g0, F0, reindentDict, reindentPV, reindent]) (by intro n hn; cases hn) ⟨Or.inr rfl, Or.inr rfl⟩
+
+def g1 : Glyph :=
+  { g0 with anchors := [{ x := 0, y := 0, name := some ['t'], color := some ⟨0, 0, 0, 0⟩, ident := some ['i'],
+                          lib := some [(['z'], PV.atom "b1")] }] }
+
+theorem valid_g1 : ValidGlyph ok0 g1 := by
+  have h := valid_g0
+  refine ⟨h.name, h.width, h.height, h.codepoints, h.codepointsNodup, h.image, ?_, h.guidelines, h.contours, h.components, by decide⟩
+  intro a ha; simp [g1] at ha; subst ha
+  exact ⟨rfl, rfl, (by intro n hn; cases hn; decide), (by intro i hi; cases hi; decide)⟩
+
+-- with an object lib: it travels under `public.objectLibs` and comes back on the anchor
+example : parseGlif R0 (encodeGlif F0 g1) = .ok (normGL nc0 g1) :=
+  glif_roundtrip_partial codec0 valid_g1
+    ⟨by intro a ha _; simp [g1] at ha; subst ha; rfl, by intro a ha; simp [g1, g0] at ha,
+     by intro c hc; simp [g1, g0] at hc; subst hc; exact ⟨by simp, by intro p hp; simp at hp; subst hp; simp⟩,
+     by intro a ha h; simp [g1, g0] at ha; subst ha; rfl⟩
+    (by decide) (by decide +kernel) (by intro n hn; cases hn) ⟨Or.inr rfl, Or.inr rfl⟩
 
 end Glif
